@@ -1,5 +1,5 @@
 """C01 — container extraction (riff walk, offset lookup, FourCC, imap/mmap, projector locator)."""
-import struct
+import os, struct
 from core import Case, canon, hx
 
 PROP = "C01"
@@ -176,6 +176,19 @@ def fourcc_cases():
                 lines.append(f"riff fourcc {order} {bytes(b).hex()}")
                 expect.append(canon(sanitize(bytes(b), order)))
             out.append(Case(kind="fourcc-exhaustive", spec=dict(order=order, pos=pos), lines=lines, expect=expect))
+    # pairs of neighbouring bytes that form one character in a multi-byte encoding, with the text encoding of the movie (environment
+    # variable DRX_ENCODING, used for names elsewhere) set to utf-8 / shift_jis / mac_roman: a FourCC is four bytes whatever the
+    # encoding says (seeded change C01-m15 decoded the four bytes in one call with the configured encoding). Implementation only.
+    pairs = [b"\xc3\xa9", b"\xe3\x81", b"\x83\x41", b"\x82\xa0", b"\xf0\x9f", b"\x8e\xb1", b"\xa4\xa2"]
+    for enc in ("utf-8", "shift_jis", "euc_jp", "mac_roman"):
+        lines, expect = [], []
+        for order in "<>":
+            for pr in pairs:
+                for at in range(3):
+                    b = bytearray(b"AbCd"); b[at:at + 2] = pr
+                    lines.append(f"#riff fourcc-enc {enc} {order} {bytes(b).hex()}")
+                    expect.append(canon(sanitize(bytes(b), order)))
+        out.append(Case(kind="fourcc-encodings", spec=dict(encoding=enc), lines=lines, expect=expect))
     return out
 
 
@@ -337,12 +350,22 @@ def impl(case):
     from drxtract.riff.mmap import parse_mmap
     out = []
     for line in case["lines"]:
-        t = line.split()
+        t = line.lstrip("#").split()
         cmd = t[1]
         B = lambda s: bytes.fromhex("" if s == "-" else s)
         ch = lambda c: {"id": c.identifier, "data": bytes(c.data).hex()}
         if cmd == "fourcc":
             out.append(_J(lambda: parse_chunk_id(B(t[3]), 0, t[2])))
+        elif cmd == "fourcc-enc":
+            old_enc = os.environ.get("DRX_ENCODING")
+            os.environ["DRX_ENCODING"] = t[2]
+            try:
+                out.append(_J(lambda: parse_chunk_id(B(t[4]), 0, t[3])))
+            finally:
+                if old_enc is None:
+                    os.environ.pop("DRX_ENCODING", None)
+                else:
+                    os.environ["DRX_ENCODING"] = old_enc
         elif cmd == "parse":
             out.append(_J(lambda: [ch(c) for c in parse_riff(B(t[4]), int(t[3]), t[2]).chunks]))
         elif cmd == "reenc":
